@@ -106,6 +106,14 @@ def ts_nesting(name, split):
     return head + _ts_deep("  ") + ["}"], 1, 1
 
 
+def ts_nesting_callback(name, split):
+    """A deeply nested callback handed to a call whose result is bound to `name`: the finding is on the callback's line,
+    which does not hold `name` - the message must not call the callback by that name."""
+    head = [f"const {name} = createServer(", "  (xs: number[], v: number) => {"] if not split \
+        else [f"const {name} =", "  createServer(", "  (xs: number[], v: number) => {"]
+    return head + _ts_deep("    ") + ["  });"], len(head), len(head)
+
+
 def ts_srp(name, split):
     head = [f"class {name}", "  extends BaseThing", "{"] if split else [f"class {name} {{"]
     body = []
@@ -198,6 +206,7 @@ TEMPLATES = {
     "py_cqs": ("python", "cqs", py_cqs, "class", True, True, "{}\n"),
     "py_lazy": ("python", "lazy-ignores", py_lazy, "func", False, False, "{}\n"),
     "ts_nesting": ("typescript", "nesting", ts_nesting, "if", False, True, "{}\n"),
+    "ts_nesting_callback": ("typescript", "nesting", ts_nesting_callback, "if", False, True, "{}\n"),
     "ts_srp": ("typescript", "srp", ts_srp, "if", False, True, "{}\n"),
     "ts_magic": ("typescript", "magic-numbers", ts_magic, "func", False, True, "{}\n"),
     "ts_print": ("typescript", "print-statements", ts_print, "func", False, True, "{}\n"),
